@@ -48,8 +48,13 @@ claim("C19",
       "The method-side termination protocol of Minimize decided for all Run implementations and paths: result is drained to closure before operation is closed, operation is closed exactly once on every normal path. Counters, statuses, convergence and LP optimality are NOT decided.",
       TRUST, "DESIGN.md §3.8, §4 C19")
 
+claim("C12",
+      "custom effect-algebra lint over adjacency mutations (converse closure), CFG pairing rules for ID pools and iterator cursors, configuration sweep",
+      "The mirror-image, ID-recycling and iterator-cursor mechanisms of C12 decided for every method of the 8 map-backed graph types, uid.Set and 30 iterator types in the default and safe builds. Histories are not explored; dense-matrix graphs, Reset, and panic atomicity are NOT decided.",
+      TRUST, "DESIGN.md §3.9, §4 C12")
+
 PENDING = "check not built yet in this round (see DESIGN.md §8 build order); not claimed until it is"
-for p in ["C12","C16","C17","C18"]:
+for p in ["C16","C17","C18"]:
     na(p, PENDING)
 
 na("C10", "every clause is an identity between floating-point values of different calls (permutation/affine invariance, quantile coherence, PSD-ness); no clause is visible in the shape of the code, so no sound static rule applies")
